@@ -23,15 +23,57 @@ def count_kind(node):
     return None
 
 
-def fk_maker(ns, path):
+def direct_vars(segs, out=None):
+    out = [] if out is None else out
+    for seg in segs:
+        if seg["s"] == "var" and seg["name"].strip() not in out:
+            out.append(seg["name"].strip())
+        elif seg["s"] == "comp":
+            direct_vars(seg["inner"], out)
+    return out
+
+
+ARG_TEXT = ["arg", "é ", " x", "42", "日本", "a b"]
+
+
+def fk_maker(ns, path, node=None, p_args=0.0):
+    """A reference to `path`; with probability p_args it carries arguments for some of the variables written in the
+    target: a string, a number, a boolean, or a string with its own variable / component."""
     def make(rng):
-        return {"s": "fk", "ns": ns, "path": list(path), "args": None}
+        args = None
+        if node is not None and rng.random() < p_args:
+            args = []
+            names = [n for n in (direct_vars(node["segs"]) if node["k"] == "tmpl" else []) if n != "count"]
+            for name in names:
+                if rng.random() < 0.6:
+                    kind = pick(rng, ["str", "int", "float", "bool", "interp", "comp"])
+                    if kind == "str":
+                        arg = {"a": "str", "segs": [{"s": "text", "v": pick(rng, ARG_TEXT)}]}
+                    elif kind == "int":
+                        arg = {"a": "int", "v": pick(rng, [0, 5, 56, -3, 2**40])}
+                    elif kind == "float":
+                        arg = {"a": "float", "v": pick(rng, [1.5, -0.25, 3.0, 100.5])}
+                    elif kind == "bool":
+                        arg = {"a": "bool", "v": rng.random() < 0.5}
+                    elif kind == "interp":
+                        arg = {"a": "str", "segs": [{"s": "text", "v": pick(rng, ARG_TEXT)}, {"s": "var", "name": "av%d" % rng.randint(0, 2), "fmt": None}]}
+                    else:
+                        arg = {"a": "str", "segs": [{"s": "comp", "name": pick(rng, ["b", "i", "em"]), "inner": [{"s": "text", "v": pick(rng, ARG_TEXT)}]}]}
+                    args.append([name, arg])
+            if rng.random() < 0.15:
+                args.append(["unused_arg", {"a": "str", "segs": [{"s": "text", "v": "discarded"}]}])
+        return {"s": "fk", "ns": ns, "path": list(path), "args": args}
     return make
 
 
-def gen_level(rng, cfg, ns, locales, default, depth, prefix, fk_pool):
+def gen_level(rng, cfg, ns, locales, default, depth, prefix, fk_pool, nodes=None):
     """Returns {locale: tree} for one level. fk_pool[locale] = list of (path) of plain keys already
     generated in that locale (rank order = generation order, so references are acyclic)."""
+    nodes = {} if nodes is None else nodes
+    p_args = getattr(cfg, "p_fk_args", 0.35)
+
+    def makers(l):
+        return [fk_maker(ns, p, nodes.get((l, p)), p_args) for p in fk_pool[l][-6:]]
     n = rng.randint(*cfg.n_keys) if depth == 0 else rng.randint(1, 4)
     names = gen.gen_key_names(rng, n, cfg.key_pool)
     trees = {l: [] for l in locales}
@@ -45,7 +87,7 @@ def gen_level(rng, cfg, ns, locales, default, depth, prefix, fk_pool):
                 r = rng.random()
                 presence[l] = "def" if l == default or r > cfg.p_absent + cfg.p_null else ("null" if r < cfg.p_null else "absent")
             sub_locales = [l for l in locales if presence[l] == "def"]
-            sub = gen_level(rng, cfg, ns, sub_locales, default, depth + 1, path, fk_pool)
+            sub = gen_level(rng, cfg, ns, sub_locales, default, depth + 1, path, fk_pool, nodes)
             for l in locales:
                 if presence[l] == "def":
                     trees[l].append([name, {"k": "sub", "tree": sub[l]}])
@@ -55,7 +97,7 @@ def gen_level(rng, cfg, ns, locales, default, depth, prefix, fk_pool):
         base = gen.gen_value(rng, cfg)
         if base["k"] in ("tmpl",) or (base["k"] == "lit" and base["ty"] == "str"):
             if rng.random() < cfg.p_fk and fk_pool[default]:
-                base = gen_plain(rng, cfg, [fk_maker(ns, p) for p in fk_pool[default][-6:]])
+                base = gen_plain(rng, cfg, makers(default))
         ck = count_kind(base)
         for l in locales:
             if l == default:
@@ -73,7 +115,7 @@ def gen_level(rng, cfg, ns, locales, default, depth, prefix, fk_pool):
                     if ck is not None and choice < 0.5:
                         node = gen.regen_like(rng, cfg, base)
                     else:
-                        tg = [fk_maker(ns, p) for p in fk_pool[l][-6:]] if rng.random() < cfg.p_fk else None
+                        tg = makers(l) if rng.random() < cfg.p_fk else None
                         node = gen_plain(rng, cfg, tg)
                 else:
                     if base["k"] == "lit" and base["ty"] != "str":
@@ -83,11 +125,12 @@ def gen_level(rng, cfg, ns, locales, default, depth, prefix, fk_pool):
                     elif ck is not None:
                         node = gen.regen_like(rng, cfg, base)
                     else:
-                        tg = [fk_maker(ns, p) for p in fk_pool[l][-6:]] if rng.random() < cfg.p_fk else None
+                        tg = makers(l) if rng.random() < cfg.p_fk else None
                         node = gen_plain(rng, cfg, tg)
             trees[l].append([name, node])
             if node["k"] == "tmpl" or (node["k"] == "lit" and node["ty"] == "str"):
                 fk_pool[l].append(path)
+                nodes[(l, path)] = node
     for l in locales:
         if l != default and rng.random() < cfg.p_surplus:
             trees[l].append([pick(rng, ["surplus_a", "extra_b", "only_here", "zz_top"]) + str(depth), gen_plain(rng, cfg)])
